@@ -544,3 +544,553 @@ Proof.
   - exact a11.
 Qed.
 End S.
+
+(** * the general single-job update: new phase and preset for job [j], optional event, pending restricted to [P'],
+      duplicate relation changed from [D] to [D'] *)
+Definition set_pend_enq (s : state) (j : nat) (y : job) (eo : option event) (P' : list ((nat * nat) * nat)) : state :=
+  set_pending (enq_opt (setj s j y) eo) P'.
+
+Lemma Qg_upd D D' s j x y eo P' :
+  Qg D s -> getj s j = Some x -> ~ In j (map evj (queue s)) -> ~ In j (waiting s) ->
+  (forall p, In p P' -> In p (pending s) \/ snd p = j) ->
+  (forall k, In (k, j) P' -> k = (jkey y, jctx y) /\ runph (jphase y) /\ jpreset y = None) ->
+  (forall v, jpreset y = Some v -> jphase y = PCacheQ \/ jphase y = PEvalQ \/ jphase y = PSettled (Ok v)) ->
+  match eo with None => True | Some e => evj e = j /\ ev_ok e (jphase y) (jpreset y) end ->
+  (forall t k xt xk, In (t, k) (subs s) -> getj s t = Some xt -> getj s k = Some xk -> D t k xt xk ->
+     jpreset xt = None -> (runph (jphase xt) \/ exists o, jphase xt = PSettled o) ->
+     let xt' := if Nat.eqb t j then y else xt in
+     let xk' := if Nat.eqb k j then y else xk in
+     jpreset xt' = None /\ (runph (jphase xt') \/ exists o, jphase xt' = PSettled o) /\ D' t k xt' xk') ->
+  Qg D' (set_pend_enq s j y eo P').
+Proof.
+  intros HQ Hx Hne Hnw HP Hpj Hpr Hev Hsb.
+  set (s' := set_pend_enq s j y eo P').
+  assert (G : forall k z, getj s' k = Some z -> (k = j /\ z = y) \/ (k <> j /\ getj s k = Some z)).
+  { intros k z H. apply (getj_setj_cases s j x y k z Hx). unfold s', set_pend_enq in H. destruct eo; exact H. }
+  assert (Gy : getj s' j = Some y) by (unfold s', set_pend_enq; destruct eo; apply (getj_setj_same _ _ _ _ Hx)).
+  assert (Go : forall k, k <> j -> getj s' k = getj s k).
+  { intros k Hk. unfold s', set_pend_enq. destruct eo; apply getj_setj_other; auto. }
+  assert (Hq : forall e, In e (queue s') -> In e (queue s) \/ eo = Some e).
+  { intros e H. unfold s', set_pend_enq in H. destruct eo as [e0|]; simpl in H; [|left; exact H].
+    apply in_app_or in H. destruct H as [H|[<-|[]]]; auto. }
+  assert (Hold : forall e, In e (queue s) -> evj e <> j).
+  { intros e He E. apply Hne. rewrite <- E. now apply in_evj. }
+  assert (Ew : waiting s' = waiting s) by (unfold s', set_pend_enq; destruct eo; reflexivity).
+  assert (Es : subs s' = subs s) by (unfold s', set_pend_enq; destruct eo; reflexivity).
+  assert (Ep : pending s' = P') by (unfold s', set_pend_enq; destruct eo; reflexivity).
+  destruct HQ as [a1 a2 a3 a4 a5 a6 a7 a8 a9 a10 a11].
+  constructor.
+  - unfold s', set_pend_enq. destruct eo as [e0|]; simpl; [|exact a1]. rewrite map_app. simpl. destruct Hev as [E _].
+    apply NoDup_app_single; [exact a1|rewrite E; exact Hne].
+  - intros k H. destruct (Hq _ H) as [H0|E].
+    + destruct (a2 k H0) as (z & Hz & Hp). exists z. split; [|exact Hp]. rewrite Go; [exact Hz|]. exact (Hold _ H0).
+    + subst eo. destruct Hev as [E1 E2]. simpl in E1, E2. subst k. exists y. auto.
+  - intros k H. destruct (Hq _ H) as [H0|E].
+    + destruct (a3 k H0) as (z & Hz & Hp). exists z. split; [|exact Hp]. rewrite Go; [exact Hz|]. exact (Hold _ H0).
+    + subst eo. destruct Hev as [E1 E2]. simpl in E1, E2. subst k. exists y. auto.
+  - intros k e H. destruct (Hq _ H) as [H0|E].
+    + destruct (a4 k e H0) as (z & Hz & Hp). exists z. split; [|exact Hp]. rewrite Go; [exact Hz|]. exact (Hold _ H0).
+    + subst eo. destruct Hev as [E1 E2]. simpl in E1, E2. subst k. exists y. auto.
+  - intros k v H. destruct (Hq _ H) as [H0|E].
+    + destruct (a5 k v H0) as (z & Hz & Hp). exists z. split; [|exact Hp]. rewrite Go; [exact Hz|]. exact (Hold _ H0).
+    + subst eo. destruct Hev as [E1 E2]. simpl in E1, E2. subst k. exists y. auto.
+  - rewrite Ew. intros k H. assert (Hk : k <> j) by (intros ->; contradiction).
+    destruct (a6 k H) as (z & Hz & Hp). exists z. rewrite Go by exact Hk. auto.
+  - rewrite Ew. exact a7.
+  - intros k z v Hz Hv. destruct (G _ _ Hz) as [[-> ->]|[Hk Hz']]; [exact (Hpr v Hv)|exact (a8 k z v Hz' Hv)].
+  - rewrite Ep. intros k t H. destruct (Nat.eq_dec t j) as [->|Ht].
+    + destruct (Hpj k H) as (A & B & C). exists y. auto.
+    + destruct (HP _ H) as [H0|H0]; [|simpl in H0; contradiction].
+      destruct (a9 k t H0) as (z & Hz & R). exists z. rewrite Go by exact Ht. auto.
+  - rewrite Es. intros t k H.
+    destruct (a10 t k H) as (Htk & Hnt & xt & xk & Hxt & Hxk & Hpt & Hph & Hd).
+    split; [exact Htk|]. split; [exact Hnt|].
+    specialize (Hsb t k xt xk H Hxt Hxk Hd Hpt Hph). cbv zeta in Hsb.
+    exists (if Nat.eqb t j then y else xt), (if Nat.eqb k j then y else xk).
+    destruct (Nat.eqb_spec t j) as [->|Ht]; destruct (Nat.eqb_spec k j) as [->|Hk]; try contradiction.
+    + rewrite Gy, (Go k Hk). destruct Hsb as (A & B & C). auto.
+    + rewrite Gy, (Go t Ht). destruct Hsb as (A & B & C). auto.
+    + rewrite (Go t Ht), (Go k Hk). destruct Hsb as (A & B & C). auto.
+  - rewrite Es. exact a11.
+Qed.
+
+Lemma Qg_mono (D D' : nat -> nat -> job -> job -> Prop) s :
+  (forall t k xt xk, D t k xt xk -> D' t k xt xk) -> Qg D s -> Qg D' s.
+Proof.
+  intros M [a1 a2 a3 a4 a5 a6 a7 a8 a9 a10 a11]. constructor; auto.
+  intros t k H. destruct (a10 t k H) as (N1 & N2 & xt & xk & A & B & C & E & F).
+  split; auto. split; auto. exists xt, xk. repeat split; auto.
+Qed.
+
+(** while job [t0] settles: its duplicates in [L] have not been told yet *)
+Definition Dmid (t0 : nat) (L : list nat) (t k : nat) (xt xk : job) : Prop :=
+  if Nat.eqb t t0 && existsb (Nat.eqb k) L then jphase xk = PCollapsed t0 else dup_ok t xt xk.
+
+Lemma set_nth_set_nth {A} (l : list A) n a b : set_nth (set_nth l n a) n b = set_nth l n b.
+Proof. revert n. induction l as [|x l IH]; intros [|n]; simpl; auto. now rewrite IH. Qed.
+
+Lemma in_dups_of s t k : In (t, k) (subs s) -> In k (dups_of s t).
+Proof.
+  intros H. unfold dups_of. apply in_map_iff. exists (t, k). split; [reflexivity|].
+  apply filter_In. split; [exact H|]. simpl. apply Nat.eqb_refl.
+Qed.
+
+Lemma existsb_eqb_in k L : existsb (Nat.eqb k) L = true <-> In k L.
+Proof.
+  rewrite existsb_exists. split.
+  - intros (x & Hx & E). apply Nat.eqb_eq in E. now subst.
+  - intros H. exists k. split; [exact H|apply Nat.eqb_refl].
+Qed.
+
+Section T.
+Variable c : config.
+Hypothesis Hsafe : pending_owner_safe (vr c) = true.
+
+Definition own_filter (y : job) (j : nat) (p : (nat * nat) * nat) : bool :=
+  negb (key_eqb (fst p) (jkey y, jctx y) && Nat.eqb (snd p) j).
+
+Lemma settle_one_core s t x o :
+  getj s t = Some x ->
+  let y := with_phase x (PSettled o) in
+  let s' := settle_one c s t o in
+  let s2 := set_pend_enq s t y None (filter (own_filter y t) (pending s)) in
+  jobs s' = jobs s2 /\ queue s' = queue s2 /\ pending s' = pending s2 /\ waiting s' = waiting s2 /\ subs s' = subs s2.
+Proof.
+  intros Hx. cbv zeta. unfold settle_one. rewrite Hx.
+  set (s1 := if jprov x then add_recorded s (jkey x, jctx x) o else s).
+  assert (G1 : getj s1 t = Some x) by (unfold s1; destruct (jprov x); exact Hx).
+  unfold finalize. rewrite (getj_setj_same _ _ (with_phase x (PSettled o)) _ G1). rewrite Hsafe.
+  unfold set_pend_enq, enq_opt, own_filter. simpl. unfold s1. destruct (jprov x); simpl; repeat split; reflexivity.
+Qed.
+
+Lemma Q_settle_one s t x o :
+  Q s -> getj s t = Some x -> ~ In t (map evj (queue s)) ->
+  jphase x = PCacheQ \/ jphase x = PReported \/ jphase x = PEvalQ ->
+  (forall v, jpreset x = Some v -> o = Ok v) ->
+  Qg (Dmid t (dups_of s t)) (settle_one c s t o).
+Proof.
+  intros HQ Hx Hne Hp Hpre.
+  set (y := with_phase x (PSettled o)).
+  destruct (settle_one_core s t x o Hx) as (E1 & E2 & E3 & E4 & E5).
+  apply (Q_core _ (set_pend_enq s t y None (filter (own_filter y t) (pending s)))); auto.
+  assert (Hnw : ~ In t (waiting s)).
+  { intros H. destruct (q_wt _ s HQ t H) as (z & Hz & P). rewrite Hx in Hz. injection Hz as <-.
+    destruct Hp as [E|[E|E]]; congruence. }
+  assert (Hux : forall o', jphase x <> PSettled o') by (intros o' E; destruct Hp as [F|[F|F]]; congruence).
+  apply (Qg_upd Dstd (Dmid t (dups_of s t)) s t x y None); auto.
+  - intros p Hp'. apply filter_In in Hp'. left. apply Hp'.
+  - intros k Hk. exfalso. apply filter_In in Hk. destruct Hk as [Hin Hf].
+    destruct (q_pd _ s HQ k t Hin) as (z & Hz & Kz & _). rewrite Hx in Hz. injection Hz as <-.
+    unfold own_filter in Hf. simpl in Hf. rewrite Kz in Hf. unfold key_eqb in Hf. simpl in Hf.
+    rewrite !Nat.eqb_refl in Hf. discriminate.
+  - intros v Hv. unfold y in *. simpl in *. rewrite (Hpre v Hv). auto.
+  - intros t' k xt xk Hin Hxt Hxk D Hpt Hph. cbv zeta. unfold y.
+    destruct (Nat.eqb_spec t' t) as [->|Ht]; destruct (Nat.eqb_spec k t) as [->|Hk].
+    + exfalso. destruct (q_sb _ s HQ t t Hin) as (N & _). now apply N.
+    + rewrite Hx in Hxt. injection Hxt as <-. split; [exact Hpt|]. split; [right; exists o; reflexivity|].
+      unfold Dmid. rewrite Nat.eqb_refl. simpl.
+      assert (Hm : existsb (Nat.eqb k) (dups_of s t) = true) by (apply existsb_eqb_in; now apply in_dups_of).
+      rewrite Hm. unfold Dstd, dup_ok in D.
+      destruct (jphase x) as [| |t0| | | | | |o0|] eqn:Ex; try exact D; try (destruct Hp as [F|[F|F]]; discriminate).
+    + rewrite Hx in Hxk. injection Hxk as <-. split; [exact Hpt|]. split; [exact Hph|].
+      unfold Dmid. destruct (Nat.eqb_spec t' t) as [F|_]; [contradiction|]. simpl.
+      unfold Dstd, dup_ok in *. destruct (jphase xt) as [| |t0| | | | | |[v|e]|] eqn:Et.
+      1-8,11: exfalso; destruct Hp as [F|[F|F]]; congruence.
+      * destruct D as [[Dv _]|D]; [right; simpl; rewrite (Hpre v Dv); reflexivity|exfalso; eapply Hux; eauto].
+      * exfalso. eapply Hux; eauto.
+    + split; [exact Hpt|]. split; [exact Hph|]. unfold Dmid. destruct (Nat.eqb_spec t' t) as [F|_]; [contradiction|]. exact D.
+Qed.
+
+(** * telling one duplicate *)
+Lemma Dmid_other t0 k L t' k' xt xk : k' <> k -> Dmid t0 (k :: L) t' k' xt xk -> Dmid t0 L t' k' xt xk.
+Proof.
+  unfold Dmid. simpl. intros Hk. destruct (Nat.eqb_spec k' k) as [E|_]; [contradiction|]. simpl. auto.
+Qed.
+
+Lemma Q_notify s t xt o k L :
+  Qg (Dmid t (k :: L)) s -> getj s t = Some xt -> jphase xt = PSettled o -> In (t, k) (subs s) -> ~ In k L ->
+  Qg (Dmid t L) (notify_sub c o s k).
+Proof.
+  intros HQ Ht Pt Hin HnL.
+  destruct (q_sb _ s HQ t k Hin) as (Htk & Hnt & xt' & xk & Hxt' & Hxk & Hpt & Hph & Hd).
+  rewrite Ht in Hxt'. injection Hxt' as <-.
+  assert (Pk : jphase xk = PCollapsed t).
+  { unfold Dmid in Hd. rewrite Nat.eqb_refl in Hd. simpl in Hd. rewrite Nat.eqb_refl in Hd. exact Hd. }
+  assert (Hne : ~ In k (map evj (queue s))) by (apply (no_event _ s k xk HQ Hxk); rewrite Pk; discriminate).
+  assert (Hnw : ~ In k (waiting s)).
+  { intros H. destruct (q_wt _ s HQ k H) as (z & Hz & P). congruence. }
+  assert (Hnp : forall kk, ~ In (kk, k) (pending s)).
+  { intros kk H. destruct (q_pd _ s HQ kk k H) as (z & Hz & _ & R & _). rewrite Hxk in Hz. injection Hz as <-.
+    unfold runph in R. rewrite Pk in R. destruct R as [R|[R|[R|R]]]; discriminate. }
+  assert (Hsubs : forall t' k' xt0 xk0 y, In (t', k') (subs s) -> getj s t' = Some xt0 -> getj s k' = Some xk0 ->
+            Dmid t (k :: L) t' k' xt0 xk0 -> jpreset xt0 = None ->
+            (runph (jphase xt0) \/ exists o0, jphase xt0 = PSettled o0) ->
+            dup_ok t xt y ->
+            let xt1 := if Nat.eqb t' k then y else xt0 in
+            let xk1 := if Nat.eqb k' k then y else xk0 in
+            jpreset xt1 = None /\ (runph (jphase xt1) \/ exists o0, jphase xt1 = PSettled o0) /\ Dmid t L t' k' xt1 xk1).
+  { intros t' k' xt0 xk0 y Hin' Hxt0 Hxk0 D0 Hp0 Hr0 Dy. cbv zeta.
+    destruct (Nat.eqb_spec t' k) as [->|Ht']; destruct (Nat.eqb_spec k' k) as [->|Hk'].
+    - exfalso. destruct (q_sb _ s HQ k k Hin') as (N & _). now apply N.
+    - exfalso. apply Hnt. apply in_map_iff. exists (k, k'). auto.
+    - (* the pair (t', k): t' = t since k collapsed once *)
+      assert (t' = t).
+      { pose proof (q_sn _ s HQ) as Hnd. clear - Hin Hin' Hnd. induction (subs s) as [|p l IH]; [contradiction|].
+        simpl in Hnd. inversion Hnd as [|? ? Hp Hl]; subst.
+        destruct Hin as [->|Hin]; destruct Hin' as [E|Hin'].
+        - now injection E.
+        - exfalso. apply Hp. simpl. apply in_map_iff. exists (t', k). auto.
+        - subst p. exfalso. apply Hp. simpl. apply in_map_iff. exists (t, k). auto.
+        - auto. }
+      subst t'. rewrite Ht in Hxt0. injection Hxt0 as <-. split; [exact Hp0|]. split; [exact Hr0|].
+      unfold Dmid. rewrite Nat.eqb_refl. simpl.
+      assert (Hm : existsb (Nat.eqb k) L = false).
+      { destruct (existsb (Nat.eqb k) L) eqn:E; auto. exfalso. apply HnL. now apply existsb_eqb_in. }
+      rewrite Hm. exact Dy.
+    - split; [exact Hp0|]. split; [exact Hr0|]. now apply (Dmid_other t k L). }
+  unfold notify_sub. rewrite Hxk. destruct o as [v|e].
+  - set (y := mark_cached xk (Some v) PCacheQ).
+    change (Qg (Dmid t L) (set_pend_enq s k y (Some (EvDone k)) (pending s))).
+    apply (Qg_upd (Dmid t (k :: L)) (Dmid t L) s k xk y (Some (EvDone k))).
+    + exact HQ.
+    + exact Hxk.
+    + exact Hne.
+    + exact Hnw.
+    + auto.
+    + intros kk H. exfalso. eapply Hnp; eauto.
+    + intros v' Hv'. simpl. auto.
+    + simpl. auto.
+    + intros t' k' xt0 xk0 Hin' Hxt0 Hxk0 D0 Hp0 Hr0. apply (Hsubs t' k' xt0 xk0 y); auto.
+      unfold dup_ok. rewrite Pt. left. simpl. auto.
+  - set (z := mark_cached xk None (jphase xk)). set (s0 := setj s k z).
+    assert (Hz0 : getj s0 k = Some z) by (apply (getj_setj_same _ _ _ _ Hxk)).
+    set (y := with_phase z (PSettled (Ko e))).
+    destruct (settle_one_core s0 k z (Ko e) Hz0) as (E1 & E2 & E3 & E4 & E5).
+    apply (Q_core _ (set_pend_enq s k y None (filter (own_filter y k) (pending s)))).
+    + rewrite E1. unfold set_pend_enq, enq_opt, s0. simpl. apply set_nth_set_nth.
+    + rewrite E2. reflexivity.
+    + rewrite E3. reflexivity.
+    + rewrite E4. reflexivity.
+    + rewrite E5. reflexivity.
+    + apply (Qg_upd (Dmid t (k :: L)) (Dmid t L) s k xk y None).
+      * exact HQ.
+      * exact Hxk.
+      * exact Hne.
+      * exact Hnw.
+      * intros p Hp'. apply filter_In in Hp'. left. apply Hp'.
+      * intros kk H. exfalso. apply filter_In in H. eapply Hnp. apply H.
+      * intros v' Hv'. simpl in Hv'. discriminate.
+      * exact I.
+      * intros t' k' xt0 xk0 Hin' Hxt0 Hxk0 D0 Hp0 Hr0. apply (Hsubs t' k' xt0 xk0 y); auto.
+        unfold dup_ok. rewrite Pt. reflexivity.
+Qed.
+
+Lemma subs_notify o s k : subs (notify_sub c o s k) = subs s.
+Proof.
+  unfold notify_sub. destruct (getj s k) as [y|]; [|reflexivity]. destruct o as [v|e]; [reflexivity|].
+  rewrite subs_settle_one. reflexivity.
+Qed.
+
+Lemma Q_fold_notify t xt o L : forall s,
+  Qg (Dmid t L) s -> getj s t = Some xt -> jphase xt = PSettled o ->
+  (forall k, In k L -> In (t, k) (subs s)) -> NoDup L ->
+  Qg (Dmid t []) (fold_left (notify_sub c o) L s).
+Proof.
+  induction L as [|k L IH]; intros s HQ Ht Pt Hs Hn; simpl; [exact HQ|].
+  inversion Hn as [|? ? Hk Hn']; subst.
+  assert (Hin : In (t, k) (subs s)) by (apply Hs; now left).
+  assert (Htk : k <> t) by (destruct (q_sb _ s HQ t k Hin) as (N & _); intros E; apply N; now rewrite E).
+  apply IH.
+  - apply (Q_notify s t xt o k L); auto.
+  - destruct (notify_other c o s k t Htk) as [G _]. rewrite G. exact Ht.
+  - exact Pt.
+  - intros k' Hk'. rewrite subs_notify. apply Hs. now right.
+  - exact Hn'.
+Qed.
+
+Lemma NoDup_dups_of s t : NoDup (map snd (subs s)) -> NoDup (dups_of s t).
+Proof.
+  unfold dups_of. induction (subs s) as [|p l IH]; simpl; intros H; [constructor|].
+  inversion H as [|? ? Hp Hl]; subst. destruct (Nat.eqb (fst p) t); simpl; auto.
+  constructor; auto. intros Hin. apply Hp. apply in_map_iff in Hin. destruct Hin as (q & E & Hq).
+  apply filter_In in Hq. apply in_map_iff. exists q. split; [exact E|apply Hq].
+Qed.
+
+Lemma in_dups_of_inv s t k : In k (dups_of s t) -> In (t, k) (subs s).
+Proof.
+  unfold dups_of. intros H. apply in_map_iff in H. destruct H as ((t', k') & E & Hq). simpl in E. subst k'.
+  apply filter_In in Hq. destruct Hq as [Hq Ht]. simpl in Ht. apply Nat.eqb_eq in Ht. now subst.
+Qed.
+
+(** * settling a job: record, finalize, tell every duplicate *)
+Lemma Q_settle s t x o :
+  Q s -> getj s t = Some x -> ~ In t (map evj (queue s)) ->
+  jphase x = PCacheQ \/ jphase x = PReported \/ jphase x = PEvalQ ->
+  (forall v, jpreset x = Some v -> o = Ok v) ->
+  Q (settle c s t o).
+Proof.
+  intros HQ Hx Hne Hp Hpre. unfold settle. rewrite Hx.
+  set (s1 := settle_one c s t o).
+  assert (Q1 : Qg (Dmid t (dups_of s t)) s1) by (apply (Q_settle_one s t x o); auto).
+  assert (Es : subs s1 = subs s) by apply subs_settle_one.
+  assert (Hy : getj s1 t = Some (with_phase x (PSettled o))).
+  { destruct (settle_one_core s t x o Hx) as (E1 & _). unfold s1, getj. rewrite E1. unfold set_pend_enq, enq_opt.
+    apply (getj_setj_same _ _ _ _ Hx). }
+  fold (dups_of s1 t). unfold dups_of at 1. rewrite Es. fold (dups_of s t).
+  apply (Qg_mono (Dmid t [])).
+  - intros t' k xt xk D. unfold Dmid in D. simpl in D. rewrite andb_false_r in D. exact D.
+  - apply (Q_fold_notify t (with_phase x (PSettled o)) o (dups_of s t) s1); auto.
+    + intros k Hk. rewrite Es. now apply in_dups_of_inv.
+    + apply NoDup_dups_of. apply (q_sn _ s HQ).
+Qed.
+
+(** * _exec_job_main_thread *)
+(** a queued job is in no duplicate pair and owns no pending entry *)
+Lemma queued_fresh s j x : Q s -> getj s j = Some x -> jphase x = PQueued ->
+  jpreset x = None /\ ~ In j (waiting s) /\ (forall k, ~ In (k, j) (pending s)) /\
+  ~ In j (map fst (subs s)) /\ ~ In j (map snd (subs s)).
+Proof.
+  intros HQ Hx P. repeat split.
+  - destruct (jpreset x) as [v|] eqn:E; [|reflexivity]. exfalso.
+    destruct (q_pr _ s HQ j x v Hx E) as [A|[A|A]]; congruence.
+  - intros H. destruct (q_wt _ s HQ j H) as (z & Hz & Pz). congruence.
+  - intros k H. destruct (q_pd _ s HQ k j H) as (z & Hz & _ & R & _). rewrite Hx in Hz. injection Hz as <-.
+    unfold runph in R. rewrite P in R. destruct R as [R|[R|[R|R]]]; discriminate.
+  - intros H. apply in_map_iff in H. destruct H as ((t, k) & E & Hin). simpl in E. subst t.
+    destruct (q_sb _ s HQ j k Hin) as (_ & _ & xt & xk & Hxt & _ & _ & R & _). rewrite Hx in Hxt. injection Hxt as <-.
+    rewrite P in R. destruct R as [R|(o & R)]; [|discriminate]. unfold runph in R. destruct R as [R|[R|[R|R]]]; discriminate.
+  - intros H. apply in_map_iff in H. destruct H as ((t, k) & E & Hin). simpl in E. subst k.
+    destruct (q_sb _ s HQ t j Hin) as (_ & _ & xt & xk & _ & Hxk & _ & _ & D). rewrite Hx in Hxk. injection Hxk as <-.
+    unfold Dstd, dup_ok in D. rewrite P in D. destruct (jphase xt) as [| |t0| | | | | |[v|e]|]; try discriminate.
+    destruct D as [[_ [D|D]]|D]; discriminate.
+Qed.
+
+(** updating a job that is in no duplicate pair *)
+Lemma Q_fresh_upd s j x y eo P' :
+  Q s -> getj s j = Some x -> ~ In j (map evj (queue s)) -> ~ In j (waiting s) ->
+  ~ In j (map fst (subs s)) -> ~ In j (map snd (subs s)) ->
+  (forall p, In p P' -> In p (pending s) \/ snd p = j) ->
+  (forall k, In (k, j) P' -> k = (jkey y, jctx y) /\ runph (jphase y) /\ jpreset y = None) ->
+  (forall v, jpreset y = Some v -> jphase y = PCacheQ \/ jphase y = PEvalQ \/ jphase y = PSettled (Ok v)) ->
+  match eo with None => True | Some e => evj e = j /\ ev_ok e (jphase y) (jpreset y) end ->
+  Q (set_pend_enq s j y eo P').
+Proof.
+  intros HQ Hx Hne Hnw Hf1 Hf2 HP Hpj Hpr Hev.
+  apply (Qg_upd Dstd Dstd s j x y eo P'); auto.
+  intros t k xt xk Hin Hxt Hxk D Hpt Hph. cbv zeta.
+  destruct (Nat.eqb_spec t j) as [->|Ht]; [exfalso; apply Hf1; apply in_map_iff; exists (j, k); auto|].
+  destruct (Nat.eqb_spec k j) as [->|Hk]; [exfalso; apply Hf2; apply in_map_iff; exists (t, j); auto|].
+  auto.
+Qed.
+
+Lemma lookup_pending_in s k t : lookup_pending s k = Some t -> exists k', In (k', t) (pending s).
+Proof.
+  unfold lookup_pending. destruct (find _ (pending s)) as [[k' t']|] eqn:E; [|discriminate].
+  simpl. intros [= ->]. apply find_some in E. exists k'. apply E.
+Qed.
+
+(** a queued job collapses into a pending one *)
+Lemma Q_collapse s j x t k0 :
+  Q s -> getj s j = Some x -> jphase x = PQueued -> ~ In j (map evj (queue s)) -> In (k0, t) (pending s) ->
+  Q (add_sub (setj s j (with_phase x (PCollapsed t))) t j).
+Proof.
+  intros HQ Hx P Hne Hpend.
+  destruct (queued_fresh s j x HQ Hx P) as (Hpre & Hnw & Hnp & Hf1 & Hf2).
+  destruct (q_pd _ s HQ k0 t Hpend) as (xt & Hxt & _ & Rt & Pt).
+  assert (Htj : t <> j) by (intros ->; eapply Hnp; eauto).
+  set (y := with_phase x (PCollapsed t)).
+  assert (Q1 : Q (setj s j y)).
+  { change (Q (set_pend_enq s j y None (pending s))).
+    apply (Q_fresh_upd s j x y None (pending s)); auto.
+    - intros k H. exfalso. eapply Hnp; eauto.
+    - intros v Hv. simpl in Hv. congruence. }
+  assert (Gt : getj (setj s j y) t = Some xt) by (rewrite getj_setj_other; auto).
+  assert (Gj : getj (setj s j y) j = Some y) by (apply (getj_setj_same _ _ _ _ Hx)).
+  assert (Hnd : ~ In t (map snd (subs s))).
+  { intros H. apply in_map_iff in H. destruct H as ((t', k) & E & Hin). simpl in E. subst k.
+    destruct (q_sb _ s HQ t' t Hin) as (_ & _ & xt' & xk & _ & Hxk & _ & _ & D). rewrite Hxt in Hxk. injection Hxk as <-.
+    unfold Dstd, dup_ok in D. unfold runph in Rt.
+    destruct (jphase xt') as [| |t0| | | | | |[v|e]|].
+    1-8,11: rewrite D in Rt; destruct Rt as [R|[R|[R|R]]]; discriminate.
+    - destruct D as [[Dv _]|D]; [congruence|rewrite D in Rt; destruct Rt as [R|[R|[R|R]]]; discriminate].
+    - rewrite D in Rt. destruct Rt as [R|[R|[R|R]]]; discriminate. }
+  destruct Q1 as [a1 a2 a3 a4 a5 a6 a7 a8 a9 a10 a11].
+  constructor; simpl; auto.
+  - intros t' k H. apply in_app_or in H. rewrite map_app. simpl. destruct H as [H|[E|[]]].
+    + destruct (a10 t' k H) as (N1 & N2 & R). split; [exact N1|]. split; [|exact R].
+      intros Hin. apply in_app_or in Hin. destruct Hin as [Hin|[E|[]]]; [contradiction|]. subst k.
+      apply Hnd. apply in_map_iff. exists (t', t). auto.
+    + injection E as <- <-. split; [exact Htj|]. split.
+      * intros Hin. apply in_app_or in Hin. destruct Hin as [Hin|[E|[]]]; [contradiction|]. now apply Htj.
+      * exists xt, y. repeat split; auto. unfold Dstd, dup_ok. unfold runph in Rt.
+        destruct (jphase xt) as [| |t0| | | | | |o|]; try reflexivity. destruct Rt as [R|[R|[R|R]]]; discriminate.
+  - rewrite map_app. simpl. apply NoDup_app_single; auto.
+Qed.
+
+(** a queued job starts waiting for resources *)
+Lemma Q_wait s j x :
+  Q s -> getj s j = Some x -> jphase x = PQueued -> ~ In j (map evj (queue s)) ->
+  Q (set_waiting (setj s j (with_phase x PWaiting)) (waiting s ++ [j])).
+Proof.
+  intros HQ Hx P Hne.
+  destruct (queued_fresh s j x HQ Hx P) as (Hpre & Hnw & Hnp & Hf1 & Hf2).
+  set (y := with_phase x PWaiting).
+  assert (Q1 : Q (setj s j y)).
+  { change (Q (set_pend_enq s j y None (pending s))).
+    apply (Q_fresh_upd s j x y None (pending s)); auto.
+    - intros k H. exfalso. eapply Hnp; eauto.
+    - intros v Hv. simpl in Hv. congruence. }
+  assert (Gj : getj (setj s j y) j = Some y) by (apply (getj_setj_same _ _ _ _ Hx)).
+  destruct Q1 as [a1 a2 a3 a4 a5 a6 a7 a8 a9 a10 a11].
+  constructor; simpl; auto.
+  - intros k H. apply in_app_or in H. destruct H as [H|[<-|[]]]; [apply a6; exact H|]. exists y. auto.
+  - apply NoDup_app_single; auto.
+Qed.
+
+Lemma Q_add_submit s j : Q s -> Q (add_submit s j).
+Proof. apply Q_core; reflexivity. Qed.
+
+Lemma Q_exec_job s j x co :
+  Q s -> getj s j = Some x -> jphase x = PQueued -> ~ In j (map evj (queue s)) -> Q (exec_job c s j co).
+Proof.
+  intros HQ Hx P Hne.
+  destruct (queued_fresh s j x HQ Hx P) as (Hpre & Hnw & Hnp & Hf1 & Hf2).
+  assert (Hpj : forall (y : job) k, In (k, j) (pending s) -> k = (jkey y, jctx y) /\ runph (jphase y) /\ jpreset y = None).
+  { intros y k H. exfalso. eapply Hnp; eauto. }
+  unfold exec_job. rewrite Hx.
+  destruct (if jnocse x then None else lookup_pending s (jkey x, jctx x)) as [t|] eqn:Etw.
+  { (* collapse *)
+    apply Q_skip. destruct (jnocse x); [discriminate|]. destruct (lookup_pending_in s _ t Etw) as (k0 & Hk0).
+    apply (Q_collapse s j x t k0); auto. }
+  match goal with |- Q (match ?h with _ => _ end) => destruct h as [[v|e]|] end.
+  - (* hit with a value or an expression *)
+    apply Q_skip. change (Q (set_pend_enq s j (mark_cached x v PCacheQ) (Some (EvDone j)) (pending s))).
+    apply (Q_fresh_upd s j x (mark_cached x v PCacheQ) (Some (EvDone j)) (pending s));
+      [exact HQ|exact Hx|exact Hne|exact Hnw|exact Hf1|exact Hf2|intros p Hp; left; exact Hp|intros k H; exfalso; eapply Hnp; eauto|intros w Hw; simpl; auto|simpl; auto].
+  - (* hit with an error *)
+    apply Q_skip. change (Q (set_pend_enq s j (mark_cached x None PCacheQ) (Some (EvReject j e)) (pending s))).
+    apply (Q_fresh_upd s j x (mark_cached x None PCacheQ) (Some (EvReject j e)) (pending s));
+      [exact HQ|exact Hx|exact Hne|exact Hnw|exact Hf1|exact Hf2|intros p Hp; left; exact Hp|intros k H; exfalso; eapply Hnp; eauto|intros w Hw; simpl in Hw; discriminate|simpl; auto].
+  - destruct (dryrun c).
+    + destruct (jbadexec x).
+      * change (Q (set_pend_enq s j (with_phase x PReported) (Some (EvReject j 0%Z)) (pending s))).
+        apply (Q_fresh_upd s j x (with_phase x PReported) (Some (EvReject j 0%Z)) (pending s));
+          [exact HQ|exact Hx|exact Hne|exact Hnw|exact Hf1|exact Hf2|intros p Hp; left; exact Hp|intros k H; exfalso; eapply Hnp; eauto|intros w Hw; simpl in Hw; congruence|simpl; auto].
+      * change (Q (set_pend_enq s j (with_phase x PDryStop) None (pending s))).
+        apply (Q_fresh_upd s j x (with_phase x PDryStop) None (pending s));
+          [exact HQ|exact Hx|exact Hne|exact Hnw|exact Hf1|exact Hf2|intros p Hp; left; exact Hp|intros k H; exfalso; eapply Hnp; eauto|intros w Hw; simpl in Hw; congruence|exact I].
+    + destruct (negb (within c (used s) (jlimits x))).
+      * apply (Q_wait s j x); auto.
+      * set (s1 := set_used s (consume (used s) (jlimits x))).
+        assert (Q1 : Q s1) by (apply Q_set_used; exact HQ).
+        destruct (jbadexec x).
+        -- change (Q (set_pend_enq s1 j (mark_holds x PReported) (Some (EvReject j 0%Z)) (pending s1))).
+           apply (Q_fresh_upd s1 j x (mark_holds x PReported) (Some (EvReject j 0%Z)) (pending s1));
+             [exact Q1|exact Hx|exact Hne|exact Hnw|exact Hf1|exact Hf2|intros p Hp; left; exact Hp|intros k H; exfalso; eapply Hnp; eauto
+             |intros w Hw; simpl in Hw; congruence|simpl; auto].
+        -- apply Q_add_submit. rewrite Hsafe.
+           set (y := mark_submitted (mark_holds x PSubmitted)).
+           set (P' := if jnocse x then pending s
+                      else (jkey x, jctx x, j) :: filter (fun p => negb (key_eqb (fst p) (jkey x, jctx x))) (pending s)).
+           change (Q (set_pend_enq s1 j y None P')).
+           apply (Q_fresh_upd s1 j x y None P'); [exact Q1|exact Hx|exact Hne|exact Hnw|exact Hf1|exact Hf2| | |intros w Hw; simpl in Hw; congruence|exact I].
+           ++ intros p Hp. unfold P' in Hp. destruct (jnocse x); [left; exact Hp|].
+              destruct Hp as [<-|Hp]; [right; reflexivity|left]. apply filter_In in Hp. apply Hp.
+           ++ intros k Hk. unfold P' in Hk. destruct (jnocse x); [exfalso; eapply Hnp; eauto|].
+              destruct Hk as [E|Hk].
+              ** injection E as <-. simpl. repeat split; auto. unfold runph. auto.
+              ** exfalso. apply filter_In in Hk. eapply Hnp. apply Hk.
+Qed.
+
+(** * every step keeps [Q] *)
+Lemma preset_none_of_phase s j x : Q s -> getj s j = Some x ->
+  jphase x = PSubmitted \/ jphase x = PEvaluating \/ jphase x = PReported -> jpreset x = None.
+Proof.
+  intros HQ Hx Hp. destruct (jpreset x) as [v|] eqn:E; [|reflexivity]. exfalso.
+  destruct (q_pr _ s HQ j x v Hx E) as [A|[A|A]]; destruct Hp as [B|[B|B]]; congruence.
+Qed.
+
+Lemma dup_ok_absurd t xt x p : dup_ok t xt x -> jphase x = p ->
+  p = PSubmitted \/ p = PEvaluating \/ p = PQueued \/ p = PWaiting -> False.
+Proof.
+  unfold dup_ok. intros D E Hp. rewrite E in D.
+  destruct (jphase xt) as [| |t0| | | | | |[v|e]|];
+    try (destruct Hp as [A|[A|[A|A]]]; rewrite A in D; discriminate).
+  destruct D as [[_ [D|D]]|D]; destruct Hp as [A|[A|[A|A]]]; rewrite A in D; discriminate.
+Qed.
+
+Lemma Q_step s o : Q s -> Q (step c s o).
+Proof.
+  intros HQ. destruct o as [key ctx l nocse prov bad|k j0 co|j ok e|j o].
+  - cbn [step]. apply Q_new; auto. intros e He.
+    assert (exists x, getj s (evj e) = Some x) as (x & Hx).
+    { destruct e as [j|j|j e0|j v]; simpl.
+      - destruct (q_ex _ s HQ j He) as (x & Hx & _). eauto.
+      - destruct (q_dn _ s HQ j He) as (x & Hx & _). eauto.
+      - destruct (q_rj _ s HQ j e0 He) as (x & Hx & _). eauto.
+      - destruct (q_rs _ s HQ j v He) as (x & Hx & _). eauto. }
+    eapply getj_lt; eauto.
+  - cbn [step]. set (i := find_event (queue s) k j0 0).
+    destruct (nth_error (queue s) i) as [ev|] eqn:En; [|exact HQ].
+    destruct (Q_pop s i ev HQ En) as [Qp Hnp]. pose proof (nth_error_In _ _ En) as Hin.
+    destruct ev as [j|j|j e|j v]; simpl in Hnp.
+    + destruct (q_ex _ s HQ j Hin) as (x & Hx & P). apply (Q_exec_job (pop_queue s i) j x co); auto.
+    + destruct (q_dn _ s HQ j Hin) as (x & Hx & P). apply (Q_done_job c (pop_queue s i) j x); auto.
+    + destruct (q_rj _ s HQ j e Hin) as (x & Hx & Pre & P). unfold reject_job.
+      set (s0 := pop_queue s i).
+      assert (Hnw : ~ In j (waiting s0)).
+      { intros H. destruct (q_wt _ s HQ j H) as (z & Hz & Pz). rewrite Hx in Hz. injection Hz as <-.
+        destruct P as [A|[A|A]]; congruence. }
+      destruct (getj_maybe_release c s0 j j x Hx Hnw) as (y & Hy & P1 & P2 & _).
+      apply (Q_settle (maybe_release c s0 j) j y (Ko e)).
+      * apply Q_maybe_release. exact Qp.
+      * exact Hy.
+      * apply no_event_maybe_release; auto.
+      * rewrite P1. exact P.
+      * intros v Hv. congruence.
+    + destruct (q_rs _ s HQ j v Hin) as (x & Hx & P & Pre). unfold resolve_job.
+      apply (Q_settle (pop_queue s i) j x (Ok v)); auto.
+      intros v' Hv'. rewrite (Pre v' Hv'). reflexivity.
+  - cbn [step]. unfold phase_is. destruct (getj s j) as [x|] eqn:Hx; [|exact HQ].
+    destruct (jphase x) eqn:P; try exact HQ.
+    assert (Hpre : jpreset x = None) by (apply (preset_none_of_phase s j x HQ Hx); auto).
+    assert (Hne : ~ In j (map evj (queue s))) by (apply (no_event _ s j x HQ Hx); rewrite P; discriminate).
+    assert (Hnw : ~ In j (waiting s)).
+    { intros H. destruct (q_wt _ s HQ j H) as (z & Hz & Pz). congruence. }
+    apply (Q_move s j x (with_phase x PReported) (Some (if ok then EvDone j else EvReject j e)));
+      [exact HQ|exact Hx|exact Hne|exact Hnw|reflexivity|reflexivity| | | | | | ].
+    + intros o. rewrite P. discriminate.
+    + intros o. simpl. discriminate.
+    + intros _. split; [unfold runph; simpl; auto|reflexivity].
+    + intros t xt Hin Ht D. exfalso. apply (dup_ok_absurd t xt x PSubmitted D P). auto.
+    + intros v Hv. simpl in Hv. congruence.
+    + destruct ok; simpl; auto.
+  - cbn [step]. unfold phase_is. destruct (getj s j) as [x|] eqn:Hx; [|exact HQ].
+    destruct (jphase x) eqn:P; try exact HQ.
+    assert (Hpre : jpreset x = None) by (apply (preset_none_of_phase s j x HQ Hx); auto).
+    assert (Hne : ~ In j (map evj (queue s))) by (apply (no_event _ s j x HQ Hx); rewrite P; discriminate).
+    assert (Hnw : ~ In j (waiting s)).
+    { intros H. destruct (q_wt _ s HQ j H) as (z & Hz & Pz). congruence. }
+    apply (Q_move s j x (with_phase x PEvalQ) (Some (match o with Ok v => EvResolve j v | Ko e => EvReject j e end)));
+      [exact HQ|exact Hx|exact Hne|exact Hnw|reflexivity|reflexivity| | | | | | ].
+    + intros o'. rewrite P. discriminate.
+    + intros o'. simpl. discriminate.
+    + intros _. split; [unfold runph; simpl; auto|reflexivity].
+    + intros t xt Hin Ht D. exfalso. apply (dup_ok_absurd t xt x PEvaluating D P). auto.
+    + intros v Hv. simpl in Hv. congruence.
+    + destruct o as [v|e]; simpl; auto. split; [reflexivity|]. split; [reflexivity|]. intros v' Hv'. simpl in Hv'. congruence.
+Qed.
+
+Theorem Q_run ops : Q (run c ops).
+Proof.
+  unfold run. rewrite <- fold_left_rev_right. induction (rev ops) as [|o l IH]; simpl; [apply Q_init|].
+  now apply Q_step.
+Qed.
+
+(** C06: whatever the workflow, the completion order and the backend's answers, a job that collapsed into another one
+    ends with exactly that job's result or error. *)
+Theorem duplicates_agree ops t j xt xj o o' :
+  In (t, j) (subs (run c ops)) -> getj (run c ops) t = Some xt -> getj (run c ops) j = Some xj ->
+  jphase xt = PSettled o -> jphase xj = PSettled o' -> o' = o.
+Proof. intros. eapply (Q_dups_agree (run c ops)); eauto. apply Q_run. Qed.
+End T.
